@@ -114,4 +114,42 @@ def ringCert (nint ntot : Nat) (tyf : Nat → Nat) (nb : Nat → List Nat) (nd :
         && ((nb (nint + k)).filter fun j => kind (tyf j) != 1).length == 1).length
       = (ntot - nint) / (2 * nd) )
 
+/-! ### inter-assembly gap mesh of one core layout (C09)
+
+`asmrow a` lists the gap cells (1-based ids as stored, here decoded to 0-based) around
+assembly `a`, walking its six sides; `sideLen a s` is the number of cells the side
+contributes (edge cells + one trailing corner); `nbr a s` the neighbouring assembly
+across side `s` (none at the periphery / next to an empty position); `own a` the
+number of edge cells per side the assembly's own duct mesh has. -/
+
+/-- cells of side `s` of assembly `a` (edge cells then the trailing corner) -/
+def sideCells (asmrow : Nat → List Nat) (sideLen : Nat → Nat → Nat) (a s : Nat) : List Nat :=
+  let start := (List.range s).foldl (fun acc k => acc + sideLen a k) 0
+  ((asmrow a).drop start).take (sideLen a s)
+
+def gapCert (nasm nsc : Nat) (asmrow : Nat → List Nat) (sideLen : Nat → Nat → Nat) (nbr : Nat → Nat → Option Nat)
+    (own : Nat → Nat) (scadj : Nat → List Nat) : Bool :=
+  -- every gap cell borders one to three assemblies
+  ((List.range nsc).all fun c =>
+      let occ := ((List.range nasm).map fun a => ((asmrow a).filter (· == c)).length).foldl (· + ·) 0
+      decide (1 ≤ occ) && decide (occ ≤ 3))
+  -- the cells around an assembly are pairwise distinct, in range, and the side lengths add up
+  && ((List.range nasm).all fun a =>
+      decide (asmrow a).Nodup && (asmrow a).all (fun c => decide (c < nsc))
+      && decide (((List.range 6).map (sideLen a)).foldl (· + ·) 0 = (asmrow a).length))
+  -- gap adjacency is symmetric, without duplicates, two or three neighbours per cell
+  && symCert nsc scadj
+  && ((List.range nsc).all fun c => decide (2 ≤ (scadj c).length) && decide ((scadj c).length ≤ 3))
+  -- a shared side is seen identically by both neighbours: same number of cells, the finer of the
+  -- two meshes, and the neighbour lists the edge cells of its opposite side in reverse order
+  && ((List.range nasm).all fun a => (List.range 6).all fun s =>
+      match nbr a s with
+      | none => sideLen a s == own a + 1
+      | some b =>
+        let mine := sideCells asmrow sideLen a s
+        let theirs := sideCells asmrow sideLen b ((s + 3) % 6)
+        (sideLen a s == sideLen b ((s + 3) % 6))
+        && (sideLen a s == max (own a) (own b) + 1)
+        && (mine.dropLast == theirs.dropLast.reverse))
+
 end Dassh.Table
